@@ -21,6 +21,7 @@ Section ResolverProofs.
   Notation redirect_target := (redirect_target U host_of join).
   Notation build_redirected := (build_redirected U).
   Notation default_stack := (default_stack U scheme_of host_of port_of join).
+  Notation default_stack_async := (default_stack_async U scheme_of host_of port_of join).
 
   (* a resolver that, per call, either hands exactly the given request to the transport or sends nothing and fails *)
   Definition faithful (inner : resolver) : Prop :=
@@ -223,6 +224,11 @@ Section ResolverProofs.
 
   Lemma default_stack_without_list ar client : default_stack None ar client = redirect ar client.
   Proof. reflexivity. Qed.
+
+  (* the async builder stacks the same wrappers in the same order, so every theorem about the sync stack is one about
+     the async stack *)
+  Lemma default_stack_async_same allow ar client : default_stack_async allow ar client = default_stack allow ar client.
+  Proof. destruct allow; reflexivity. Qed.
   Lemma default_stack_shape allow ar :
     exists inner, faithful inner /\ default_stack allow ar transport = redirect ar inner.
   Proof.
